@@ -36,6 +36,14 @@ def check_part(ctx, case, outpars, srcpars, dup, features):
         i = occ[0]
         if toks_out[i] != p.tokens:
             ctx.fail('text migrated between paragraphs or changed order inside one', case, {'paragraph': p.k, 'part': p.part, 'source_tokens': p.tokens, 'output_paragraph': outpars[i]}, features=features); return False
+        # every text node in full (also whitespace-only ones), in order
+        pos = 0
+        for x in p.own:
+            if src.ptag(x) in ('w:t', 'm:t') and x.text:
+                k = outpars[i].find(x.text, pos)
+                if k < 0:
+                    ctx.fail('characters of a text node are missing from its paragraph (or out of order)', case, {'paragraph': p.k, 'part': p.part, 'text_node': x.text, 'output_paragraph': outpars[i]}, features=features); return False
+                pos = k + len(x.text)
         if not p.encloses_par and not p.nested_in_par:
             if i <= last_leaf and not dup:
                 ctx.fail('paragraphs are not in document order', case, {'paragraph': p.k, 'part': p.part, 'output_index': i, 'previous': last_leaf}, features=features); return False
